@@ -1,7 +1,12 @@
-import KitModel.Go.Prelude
-/-! Driver for property C04: `kitdrv C04` reads op lines on stdin, one answer line per input line. -/
+import Driver.C04Parser
+import Driver.C04Next
+/-! Driver for property C04: `kitdrv C04 parser …` / `kitdrv C04 next …`. -/
 namespace Driver.C04
-def main (_args : List String) : IO UInt32 := do
-  IO.eprintln "kitdrv: C04 has no model driver yet"
-  return 2
+def main (args : List String) : IO UInt32 :=
+  match args with
+  | "parser" :: rest => Driver.C04Parser.main rest
+  | "next" :: rest => Driver.C04Next.main rest
+  | _ => do
+    IO.eprintln "usage: kitdrv C04 parser|next"
+    return 2
 end Driver.C04
